@@ -622,10 +622,19 @@ def r_user_is_the_node(c):
         raise AnalysisError(f"only {n} user registrations found (floor 20)")
 
 
+def r_shape_component_tests(c):
+    """(shared rule, pta/rules/common.py) array-valued shape components are selected
+    with isinstance(.., Array), never with a narrower class"""
+    from pta.rules.common import check_shape_component_tests
+    n = check_shape_component_tests(c, "R20-CONVERSE", ["pytato.analysis", "pytato.transform", "pytato.transform.materialize", "pytato.transform.metadata", "pytato.transform.calls"])
+    if n < 6:
+        raise AnalysisError(f"only {n} type tests on shape components found (floor 6)")
+
+
 SPEC = Spec(
     prop="C20",
     rules=[r_converse, r_topo, r_count, r_materialized, r_deps_self, r_stateless_getters,
-           r_user_is_the_node],
+           r_user_is_the_node, r_shape_component_tests],
     floors={"R20-CONVERSE": 90, "R20-TOPO": 40, "R20-COUNT": 10, "R20-MATERIALIZED": 7,
             "R20-DEPS": 26},
     explanation=(
@@ -647,7 +656,7 @@ SPEC = Spec(
         "R20-DEPS: for every array kind the set DependencyMapper / "
         "SubsetDependencyMapper return contains the node itself (access-path flow: "
         "the root path flows into the result); function-call results are "
-        "represented by the call's dependencies (exempt)."),
+        "represented by the call's dependencies (exempt). Shared rule: wherever the array-valued components of a shape are picked out, the type test is isinstance(.., Array), never a narrower class."),
     not_decided=(
         "Numeric equality of the returned counts / relations with an independent "
         "enumeration on concrete graphs (follows from R13/R20 but is not measured)."),
